@@ -452,9 +452,9 @@ func newAZSelector(clientAZ string, startIdx int) func(uint16, []NodeInfo) int {
 		}
 
 		// Round-Robin on ALL available nodes
-		if count := uint32(len(nodes) - startIdx); count > 0 {
+		if n := len(nodes); n > startIdx {
 			c := counter.Add(1)
-			return int(c%count) + startIdx
+			return int(c%uint32(n-startIdx)) + startIdx
 		}
 
 		return -1
